@@ -21,7 +21,7 @@ def num_leaf(num_vars=NUM_VARS, floats=True):
 
 def typed_exprs(max_leaves=12, num_vars=NUM_VARS, agg_vars=AGG_VARS, funcs=FUNCS,
                 with_bool=True, with_if=True, with_sub=True, with_call=True,
-                with_pow=True, with_quot=True, floats=True, with_minmax=False):
+                with_pow=True, with_quot=True, floats=True, with_minmax=False, bool_literals=False):
     """Returns (num_strategy, bool_strategy) of well-typed trees."""
 
     def build(draw_depth):
@@ -76,7 +76,12 @@ def typed_exprs(max_leaves=12, num_vars=NUM_VARS, agg_vars=AGG_VARS, funcs=FUNCS
 
     @st.composite
     def boolean(draw, depth):
-        c = draw(st.sampled_from(["cmp", "cmp", "cmp", "and", "or", "not"] if depth > 0 else ["cmp"]))
+        c = draw(st.sampled_from(["cmp", "cmp", "cmp", "and", "or", "not", "lit"] if depth > 0 else ["cmp", "cmp", "cmp", "lit"]))
+        if c == "lit":
+            if not bool_literals:
+                c = "cmp"
+            else:
+                return ["const", draw(st.booleans())]
         d = depth - 1
         if c == "cmp":
             return ["cmp", draw(num(max(d, 0))), draw(st.sampled_from(CMP_OPS)), draw(num(max(d, 0)))]
